@@ -18,7 +18,7 @@
 //	new srv <serverip8hex>                   => ok t=<unix> d=<delta>
 //	setcfg <mac12hex> <ip8hex> <ifindex>     => d=<delta>                  Loader.SetServerConfig (what Server.Start does)
 //	addpool <id> <net8hex>/<plen> <gw8hex> <dns8hex,…|-> <leaseSecs> <vlan> <class>   => ok d=<delta> | err …
-//	slow <dhcp-payload-hex>                  => q=<kind>:<mac>:<giaddr>:<cid|none>:<opt50|-> r=<reply-hex|none> L=<leases> C=<cid index> d=<delta>
+//	slow <dhcp-payload-hex>                  => q=<kind>:<mac>:<giaddr>:<cid|none>:<opt50|-> r=<reply-hex|none> sv=<type:yiaddr:54:51:1:3:6|-> L=<leases> C=<cid index> d=<delta>
 //	cleanup                                  => L=… C=… d=…                 one cleanupExpiredLeases pass
 //	tick <seconds>                           => ok                          virtual time passes
 //	vlanadd <stag> <ctag> <poolid> <ip8hex> <expUnix>  => d=…               Loader.AddVLANSubscriber (API state)
@@ -323,7 +323,7 @@ func circuitID(p *dhcpv4.DHCPv4) string {
 func (r *run) doSlow(payload []byte) string {
 	p, err := dhcpv4.FromBytes(payload)
 	if err != nil {
-		return "q=unparsed r=none " + r.leases() + " d=" + r.sync()
+		return "q=unparsed r=none sv=- " + r.leases() + " d=" + r.sync()
 	}
 	opt50 := "-"
 	if ip := p.RequestedIPAddress(); ip != nil {
@@ -332,13 +332,27 @@ func (r *run) doSlow(payload []byte) string {
 	q := fmt.Sprintf("q=%s:%s:%s:%s:%s", kindOf(p.MessageType()), hex.EncodeToString(p.ClientHWAddr), ipHex(p.GatewayIPAddr), circuitID(p), opt50)
 	r.conn.sent = nil
 	r.srv.HandleDHCPForVerif(r.conn, &net.UDPAddr{IP: net.IPv4bcast, Port: 68}, p)
-	reply := "none"
+	reply, sv := "none", "-"
 	if len(r.conn.sent) == 1 {
 		reply = hex.EncodeToString(r.conn.sent[0])
+		// the fields C03 compares, as the library reads them back from the reply the server built
+		if resp, err := dhcpv4.FromBytes(r.conn.sent[0]); err == nil &&
+			(resp.MessageType() == dhcpv4.MessageTypeOffer || resp.MessageType() == dhcpv4.MessageTypeAck) {
+			h := func(b []byte) string {
+				if len(b) == 0 {
+					return "-"
+				}
+				return hex.EncodeToString(b)
+			}
+			o := func(c dhcpv4.OptionCode) string { return h(resp.Options.Get(c)) }
+			sv = strings.Join([]string{o(dhcpv4.OptionDHCPMessageType), h(resp.YourIPAddr.To4()), o(dhcpv4.OptionServerIdentifier),
+				o(dhcpv4.OptionIPAddressLeaseTime), o(dhcpv4.OptionSubnetMask), o(dhcpv4.OptionRouter),
+				o(dhcpv4.OptionDomainNameServer)}, ":")
+		}
 	} else if len(r.conn.sent) > 1 {
 		reply = fmt.Sprintf("multi%d", len(r.conn.sent))
 	}
-	return q + " r=" + reply + " " + r.leases() + " d=" + r.sync()
+	return q + " r=" + reply + " sv=" + sv + " " + r.leases() + " d=" + r.sync()
 }
 
 func (r *run) Do(op string) string {
